@@ -24,6 +24,7 @@ class Opts:
         self.content_fn = None      # (rng, index, depth) -> list[str] content lines or None for default
         self.max_blocks = 12
         self.final_newline = True
+        self.bom = False            # file starts with a UTF-8 byte order mark (3 bytes that count in line 1's byte columns)
         for k, v in kw.items():
             assert hasattr(self, k), k
             setattr(self, k, v)
@@ -278,6 +279,8 @@ def gen_file(r, lang_name, opts=None):
     lang = LANGS[lang_name]
     o = opts or Opts()
     g = _G(r, lang, o)
+    if o.bom:
+        g.b.raw("\ufeff")
     for ln in lang["prologue"]:
         g.b.line_text(ln)
     g.items(0)
